@@ -11,6 +11,7 @@ and unconvertible values under the same options.
 """
 from __future__ import annotations
 
+import copy
 import json
 import warnings
 
@@ -63,6 +64,56 @@ def check_case(ctx, case):
                     ctx.violation(f"unconvertible value: expected it kept as given with one ConverterWarning, got {repr(out[1])[:200]} with {nwarn} warning(s)", info)
 
 
+def _dict_paths(x, path=()):
+    """Paths to every dict node of a JSON-like document."""
+    out = []
+    if isinstance(x, dict):
+        out.append(path)
+        for k, v in x.items():
+            out += _dict_paths(v, path + (k,))
+    elif isinstance(x, list):
+        for i, v in enumerate(x):
+            out += _dict_paths(v, path + (i,))
+    return out
+
+
+def dict_poly(ctx):
+    """Unknown keys at every object level of documents with polymorphic objects x the 8 option combinations."""
+    import itertools
+
+    from xsdata.formats.dataclass.context import XmlContext
+
+    from ..poly_models import DOCS as docs
+    from ..poly_models import PRoot as root
+    xctx = XmlContext()
+    n = 0
+    for data in docs:
+        base = DictDecoder(context=xctx).decode(data, root)
+        for up, ua, cw in itertools.product((False, True), repeat=3):
+            dec = DictDecoder(context=xctx, config=ParserConfig(fail_on_unknown_properties=up, fail_on_unknown_attributes=ua, fail_on_converter_warnings=cw))
+            for path in _dict_paths(data):
+                for shape in ({"deep": [{"er": 1}]}, None, 5):
+                    bad = copy.deepcopy(data)
+                    node = bad
+                    for k in path:
+                        node = node[k]
+                    node["zz_unknown"] = shape
+                    n += 1
+                    ctx.case(("dict-poly", json.dumps(data), str(path), up, ua, cw, str(shape)))
+                    try:
+                        got = ("ok", dec.decode(bad, root))
+                    except Exception as ex:  # noqa: BLE001
+                        got = ("exc", ex)
+                    where = "/".join(map(str, path)) or "(root)"
+                    info = {"data": bad, "options": {"unknownProps": up, "unknownAttrs": ua, "convWarnings": cw}}
+                    if up:
+                        if got[0] != "exc" or not isinstance(got[1], ParserError):
+                            ctx.violation(f"DictDecoder (polymorphic model): unknown key at {where} with fail_on_unknown_properties: expected ParserError, got {repr(got[1])[:200]}", info)
+                    elif got[0] != "ok" or got[1] != base:
+                        ctx.violation(f"DictDecoder (polymorphic model): unknown key at {where} with the option off changed the result: {repr(got[1])[:200]} vs {base!r}", info)
+    ctx.extra["dict_poly_cases"] = n
+
+
 def dict_options(ctx, cases):
     n = 0
     for case in cases:
@@ -79,21 +130,28 @@ def dict_options(ctx, cases):
         dec = DictDecoder(context=r.ctx, config=pc)
         n += 1
         ctx.case(("dict", str(case["m"]), str(case["inst"]), str(cfg)))
-        # unknown key
-        try:
-            got = ("ok", dec.decode({**data, "zz_unknown": {"deep": [1, 2]}}, r.mod.Root))
-        except Exception as ex:  # noqa: BLE001
-            got = ("exc", ex)
+        # unknown key, injected at EVERY object level of the document (one position at a time)
         info = r.info(data=json.dumps(data, default=str)[:800])
         try:
             base = DictDecoder(context=r.ctx).decode(data, r.mod.Root)
         except Exception:  # noqa: BLE001
             continue
-        if cfg["unknownProps"]:
-            if got[0] != "exc" or not isinstance(got[1], ParserError):
-                ctx.violation(f"DictDecoder: unknown key with fail_on_unknown_properties: expected ParserError, got {repr(got[1])[:200]}", info)
-        elif got[0] != "ok" or got[1] != base:
-            ctx.violation(f"DictDecoder: unknown key with the option off changed the result: {repr(got[1])[:200]} vs {base!r}", info)
+        for path in _dict_paths(data)[:8]:
+            bad = copy.deepcopy(data)
+            node = bad
+            for k in path:
+                node = node[k]
+            node["zz_unknown"] = {"deep": [1, 2]}
+            try:
+                got = ("ok", dec.decode(bad, r.mod.Root))
+            except Exception as ex:  # noqa: BLE001
+                got = ("exc", ex)
+            where = "/".join(map(str, path)) or "(root)"
+            if cfg["unknownProps"]:
+                if got[0] != "exc" or not isinstance(got[1], ParserError):
+                    ctx.violation(f"DictDecoder: unknown key at {where} with fail_on_unknown_properties: expected ParserError, got {repr(got[1])[:200]}", {**info, "path": path})
+            elif got[0] != "ok" or got[1] != base:
+                ctx.violation(f"DictDecoder: unknown key at {where} with the option off changed the result: {repr(got[1])[:200]} vs {base!r}", {**info, "path": path})
         # unconvertible value in an int list
         for f in case["m"]["fields"]:
             if f["tp"] == "int" and f["card"] == "list" and data.get(f["name"]):
@@ -132,6 +190,7 @@ def run(ctx):
     for case in cases:
         check_case(ctx, case)
     dict_options(ctx, cases)
+    dict_poly(ctx)
     if cases:
         c = next((x for x in cases if x["fault"] == "unknownLast"), cases[0])
         ctx.sample({"fault": c["fault"], "options": c["cfg"], "document": rb.render_doc(rb.faulted(c["doc"], c["fault"], c["evs"], c["m"]), 0),
